@@ -91,3 +91,9 @@ package expr
 //@   at elemstore 2 assert* requirement.stored: index == i && slice == reqs2 && value == req2 && req2.Schemes == schs
 //@   modifies* nothing
 //@   frameprop C06
+
+// Package initialisation computes nothing from the environment (clock, process state): generated examples and
+// names are functions of the design alone.
+//@ func init
+//@   property C09
+//@   requires !envReadable
